@@ -82,6 +82,13 @@ class Tally:
         self.fail_classes = Counter()
         self.samples = []
         self.extra = Counter()
+        self.maxima = {}  # name -> largest value observed (e.g. worst deviation from the oracle)
+
+    def stat(self, name, value):
+        """Track the maximum of a measured quantity (e.g. worst observed error relative to tolerance)."""
+        v = float(value)
+        if v == v and (name not in self.maxima or v > self.maxima[name]):
+            self.maxima[name] = v
 
     def case(self, key=None, nontrivial=True, outcome=None, n=1):
         self.n += n
@@ -124,6 +131,8 @@ class Tally:
             if len(self.samples) < 8:
                 self.samples.append(s)
         self.extra.update(o.extra)
+        for k, v in getattr(o, "maxima", {}).items():
+            self.stat(k, v)
         return self
 
 
@@ -360,6 +369,8 @@ def write_evidence(ctx, nviol):
         cov["seam_missing"] = ctx.seam_missing
     for k, v in t.extra.items():
         cov.setdefault(f"count_{k}", int(v))
+    for k, v in sorted(t.maxima.items()):
+        cov.setdefault(f"max_{k}", v)
     cov["repo_head"] = getattr(ctx, "repo_head", "?")
     cov["repo_dirty"] = getattr(ctx, "repo_dirty", False)
     ev = {
